@@ -454,63 +454,108 @@ var AnalyzerBuiltinArity = &Analyzer{
 //
 // letBinding entries are (name value); funBinding entries are
 // (name (formals...) body...).
-var bindingForms = map[string]struct{ funBinding bool }{
-	"let":      {funBinding: false},
-	"let*":     {funBinding: false},
-	"flet":     {funBinding: true},
-	"labels":   {funBinding: true},
-	"macrolet": {funBinding: true},
+//
+// valuesInScope records where the evaluator evaluates the value side of an
+// entry.  let, flet and macrolet evaluate every entry in the ENCLOSING
+// environment and only then install the bindings, so a name bound by the form
+// is not yet bound inside the entries; let* and labels evaluate the entries in
+// the environment that receives the bindings (let* one after the other,
+// labels with every name already visible).
+var bindingForms = map[string]struct{ funBinding, valuesInScope bool }{
+	"let":      {funBinding: false, valuesInScope: false},
+	"let*":     {funBinding: false, valuesInScope: true},
+	"flet":     {funBinding: true, valuesInScope: false},
+	"labels":   {funBinding: true, valuesInScope: true},
+	"macrolet": {funBinding: true, valuesInScope: false},
 }
 
 // bindingList returns the binding list of a binding form, or nil if sexpr is
 // not a binding form or is malformed.
-func bindingList(sexpr *lisp.LVal) (*lisp.LVal, bool) {
+func bindingList(sexpr *lisp.LVal) (binds *lisp.LVal, funBinding bool, valuesInScope bool) {
 	kind, ok := bindingForms[HeadSymbol(sexpr)]
 	if !ok || ArgCount(sexpr) < 1 {
-		return nil, false
+		return nil, false, false
 	}
-	binds := sexpr.Cells[1]
+	binds = sexpr.Cells[1]
 	if binds == nil || binds.Type != lisp.LSExpr {
-		return nil, false
+		return nil, false, false
 	}
-	return binds, kind.funBinding
+	return binds, kind.funBinding, kind.valuesInScope
 }
 
-// markLocallyShadowedCalls marks every call in form's subtree whose head is
-// one of the names form binds, so those calls are not checked against the
-// builtin arity table.
+// markLocallyShadowedCalls marks the calls that reach a name bound by the
+// binding form, so those calls are not checked against the builtin arity
+// table.
 //
-// The marking is scoped to the binding form's own subtree. A file-global name
-// set would be simpler but silently disables the check for that name
-// everywhere in the file: one unrelated (let ([map ...]) ...) in one function
-// would suppress a genuine (map 'list) arity error in another. builtin-arity
-// is a SeverityError check that gates the build, so it must not go quietly
-// dark outside the scope that actually rebinds the name.
+// The marking follows the form's scope.  A file-global name set would be
+// simpler but silently disables the check for that name everywhere in the
+// file: one unrelated (let ([map ...]) ...) in one function would suppress a
+// genuine (map 'list) arity error in another.  Marking the whole form is still
+// too much: in (let ((get f) (y (get 5))) ...) the (get 5) is evaluated before
+// get is bound and reaches the builtin.  builtin-arity is a SeverityError check
+// that gates the build, so it must not go quietly dark outside the scope that
+// actually rebinds the name:
 //
-// Scoping to the whole form rather than to each binding's body is a
-// deliberate over-approximation — it costs nothing in practice and avoids
-// duplicating let/let*/flet/labels scope rules here.
-func markLocallyShadowedCalls(form *lisp.LVal, binds *lisp.LVal, funBinding bool, skip map[*lisp.LVal]bool) {
-	local := make(map[string]bool)
+//   - the body sees every name the form binds;
+//   - the value side of an entry sees them only when the evaluator evaluates
+//     entries in the new scope (valuesInScope): all of them for labels, the
+//     earlier entries' names for let*;
+//   - the parameters of a local function are visible in that function's body.
+func markLocallyShadowedCalls(form *lisp.LVal, binds *lisp.LVal, funBinding bool, valuesInScope bool, skip map[*lisp.LVal]bool) {
+	mark := func(region []*lisp.LVal, names map[string]bool) {
+		if len(names) == 0 {
+			return
+		}
+		WalkSExprs(region, func(sexpr *lisp.LVal, depth int) {
+			if head := HeadSymbol(sexpr); head != "" && names[head] {
+				skip[sexpr] = true
+			}
+		})
+	}
+	entryName := func(bind *lisp.LVal) string {
+		if bind == nil || bind.Type != lisp.LSExpr || len(bind.Cells) == 0 || bind.Cells[0].Type != lisp.LSymbol {
+			return ""
+		}
+		return bind.Cells[0].Str
+	}
+	bound := make(map[string]bool)
 	for _, bind := range binds.Cells {
-		if bind == nil || bind.Type != lisp.LSExpr || len(bind.Cells) == 0 {
-			continue
-		}
-		if name := bind.Cells[0]; name.Type == lisp.LSymbol {
-			local[name.Str] = true
-		}
-		if funBinding && len(bind.Cells) >= 2 {
-			CollectFormals(bind.Cells[1], local)
+		if name := entryName(bind); name != "" {
+			bound[name] = true
 		}
 	}
-	if len(local) == 0 {
-		return
-	}
-	WalkSExprs([]*lisp.LVal{form}, func(sexpr *lisp.LVal, depth int) {
-		if head := HeadSymbol(sexpr); head != "" && local[head] {
-			skip[sexpr] = true
+	mark(form.Cells[2:], bound)
+	if valuesInScope {
+		if funBinding {
+			// labels: every function body sees every name.
+			for _, bind := range binds.Cells {
+				if entryName(bind) != "" {
+					mark(bind.Cells[1:], bound)
+				}
+			}
+		} else {
+			// let*: an entry sees the names of the entries before it.
+			earlier := make(map[string]bool)
+			for _, bind := range binds.Cells {
+				name := entryName(bind)
+				if name == "" {
+					continue
+				}
+				mark(bind.Cells[1:], earlier)
+				earlier[name] = true
+			}
 		}
-	})
+	}
+	if funBinding {
+		for _, bind := range binds.Cells {
+			if entryName(bind) == "" || len(bind.Cells) < 2 {
+				continue
+			}
+			params := make(map[string]bool)
+			CollectFormals(bind.Cells[1], params)
+			mark(bind.Cells[2:], params)
+		}
+	}
 }
 
 // definedFunctionNames returns the names the file defines with defun or
@@ -610,7 +655,7 @@ func aritySkipNodes(exprs []*lisp.LVal) map[*lisp.LVal]bool {
 				}
 			}
 		}
-		if binds, funBinding := bindingList(sexpr); binds != nil {
+		if binds, funBinding, valuesInScope := bindingList(sexpr); binds != nil {
 			skip[binds] = true
 			for _, bind := range binds.Cells {
 				if bind == nil || bind.Type != lisp.LSExpr {
@@ -621,7 +666,7 @@ func aritySkipNodes(exprs []*lisp.LVal) map[*lisp.LVal]bool {
 					skip[bind.Cells[1]] = true // formals list
 				}
 			}
-			markLocallyShadowedCalls(sexpr, binds, funBinding, skip)
+			markLocallyShadowedCalls(sexpr, binds, funBinding, valuesInScope, skip)
 		}
 	})
 	for _, expr := range exprs {
